@@ -268,6 +268,47 @@ def _oracle_table(lo, hi, out):
     return None
 
 
+def search(ctx, disagreements, bins):
+    """Model and implementation disagree on some request although the oracle accepted the implementation's
+    answer there: look for a concrete failing input in the neighbourhood (single characters, pairs, the text with
+    either quote appended) by evaluating the property's oracle on the real implementation."""
+    hbin = bins.get((HARNESS["bin"], HARNESS["features"]))
+    if not hbin or not disagreements:
+        return None
+    tab, _ = _real_table(hbin)
+    reqs, seen = [], set()
+
+    def add(r):
+        if r not in seen:
+            seen.add(r)
+            reqs.append(r)
+    for e in disagreements[:40]:
+        ws = e["request"].split()
+        if ws[0] in ("reprs", "reprq"):
+            s = unhex(ws[-2]).decode("utf-8")
+            cands = {s} | set(s) | {a + b for a in set(s) for b in set(s)}
+            for t in sorted(cands):
+                for v in (t, t + "'", t + '"', "'" + t, t + "\n", "a" + t):
+                    add(f"reprs {hexs(v)} {_pl(v, tab)}")
+        elif ws[0] in ("reprb", "reprbq"):
+            b = unhex(ws[-1])
+            cands = {b} | {bytes([x]) for x in b} | {bytes([x, y]) for x in set(b) for y in set(b)}
+            for t in sorted(cands):
+                for v in (t, t + b"'", t + b'"', b"'" + t, t + b"\n", b"a" + t):
+                    add(f"reprb {hexs(v)}")
+    if not reqs:
+        return None
+    outs = core.run_lines([hbin], reqs[:20000], jobs=4)
+    for r, a in zip(reqs, outs):
+        try:
+            fail = oracle(r, a)
+        except Exception:  # noqa: BLE001
+            fail = None
+        if fail:
+            return {"request": r, "impl": a, "failure": fail, "stream": "violation-search"}
+    return None
+
+
 # ------------------------------------------------------------------ generators
 
 # class representatives (one comment per class)
